@@ -4,7 +4,8 @@
 Subset: a function of integer arguments (an optional leading `self` whose only use is `self.data[k]`
 with a constant k, translated to the byte accessor argument `d k`); statements `if/elif/else`, `return`,
 `raise` (any exception -> `none`), simple local assignment; expressions: integer and boolean constants,
-names, chained comparisons, `and`/`or`/`not`, `+ - * // % ** & | ^`.
+names, chained comparisons, `and`/`or`/`not`, `+ - * // % ** & | ^`, and calls (positional arguments only) of other
+functions of the same module that are themselves in the subset and total (translated to `@[simp]` helper definitions).
 
 Integers are translated to `Nat` (the properties quantify over codes / bit indices >= 0; negative
 arguments are exercised by the correspondence only). Anything outside the subset raises Untranslatable,
@@ -24,9 +25,30 @@ CMP = {ast.Eq: "=", ast.NotEq: "≠", ast.Lt: "<", ast.LtE: "≤", ast.Gt: ">", 
 
 
 class T:
-    def __init__(self, params, has_self):
+    def __init__(self, params, has_self, fn=None, lean_name="f", helpers=None, depth=0):
         self.params, self.has_self = params, has_self
         self.raises = False
+        self.fn, self.lean_name, self.depth = fn, lean_name, depth
+        self.helpers = helpers if helpers is not None else {}      # python name -> (lean name, kind, text)
+
+    def helper(self, e, kind):
+        """a call of another function of the same module: translated on demand to a helper definition"""
+        if not (isinstance(e, ast.Call) and isinstance(e.func, ast.Name) and not e.keywords and self.fn is not None):
+            return None
+        target = getattr(self.fn, "__globals__", {}).get(e.func.id)
+        if not inspect.isfunction(target) or target.__module__ != self.fn.__module__ or self.depth > 3:
+            raise Untranslatable("call of %s" % e.func.id)
+        key = (e.func.id, kind)
+        if key not in self.helpers:
+            hname = "%s_%s" % (self.lean_name, e.func.id.strip("_"))
+            text, info = translate(target, hname, kind, _helpers=self.helpers, _depth=self.depth + 1)
+            if info["partial"] or info["self"]:
+                raise Untranslatable("helper %s is partial" % e.func.id)
+            self.helpers[key] = (hname, len(info["params"]), "@[simp] " + text)
+        hname, arity, _ = self.helpers[key]
+        if len(e.args) != arity:
+            raise Untranslatable("arity of %s" % e.func.id)
+        return "(%s %s)" % (hname, " ".join(self.num(a) for a in e.args))
 
     # expressions of integer type
     def num(self, e):
@@ -40,6 +62,10 @@ class T:
             return e.id
         if isinstance(e, ast.BinOp) and type(e.op) in BIN:
             return "(%s %s %s)" % (self.num(e.left), BIN[type(e.op)], self.num(e.right))
+        if isinstance(e, ast.Call):
+            h = self.helper(e, "nat")
+            if h:
+                return h
         if (isinstance(e, ast.Subscript) and isinstance(e.value, ast.Attribute) and self.has_self
                 and isinstance(e.value.value, ast.Name) and e.value.value.id == "self" and e.value.attr == "data"):
             idx = e.slice
@@ -56,6 +82,10 @@ class T:
             return "(" + op.join(self.boo(v) for v in e.values) + ")"
         if isinstance(e, ast.UnaryOp) and isinstance(e.op, ast.Not):
             return "(!%s)" % self.boo(e.operand)
+        if isinstance(e, ast.Call):
+            h = self.helper(e, "bool")
+            if h:
+                return h
         if isinstance(e, ast.Compare):
             parts, left = [], e.left
             for op, right in zip(e.ops, e.comparators):
@@ -108,7 +138,7 @@ class T:
         return False
 
 
-def translate(fn, lean_name, kind="bool"):
+def translate(fn, lean_name, kind="bool", _helpers=None, _depth=0):
     """returns (lean source text, info dict). kind: 'bool' or 'nat' (the return type)"""
     src = textwrap.dedent(inspect.getsource(fn))
     tree = ast.parse(src).body[0]
@@ -119,7 +149,7 @@ def translate(fn, lean_name, kind="bool"):
         raise Untranslatable("signature")
     has_self = bool(args) and args[0] == "self"
     params = args[1:] if has_self else args
-    t = T(params, has_self)
+    t = T(params, has_self, fn, lean_name, _helpers, _depth)
     t.locals = set()
     t.opt = any(isinstance(n, ast.Raise) for n in ast.walk(tree))
     body = t.block(tree.body, kind, 1)
@@ -128,4 +158,6 @@ def translate(fn, lean_name, kind="bool"):
         ret = "Option " + ret
     binders = ("(d : Nat → Nat) " if has_self else "") + " ".join("(%s : Nat)" % p for p in params)
     text = "def %s %s : %s :=\n%s\n" % (lean_name, binders, ret, body)
+    if _depth == 0 and t.helpers:
+        text = "\n".join(h[2] for h in t.helpers.values()) + "\n" + text
     return text, {"params": params, "self": has_self, "partial": t.opt}
